@@ -96,6 +96,18 @@ def build(tier):
                 # on membership only would leak between them)
                 prefix = [dict(v, id=f"prefix{bi}{vi}s", scale=4.0), dict(v, id=f"prefix{bi}{vi}b", biased=not v["biased"])]
             histories.append(prefix + [v])
+    # a call whose optimisation problems are LARGER than anything else here (N*W = 60), followed by a call whose solves
+    # run into the iteration budget (data of scale 30): settings that stick from the first would change the second
+    big = dict(runs.gen_config(rng, 4900, tier), fe="single", N=6, W=10, K=2, limit=1, m=3, eps=0, scale=1.0, lam=0.11,
+               lam_form="float", beta=5.0, beta_form="float", n_regimes=2, P=1, mp=False, readonly=False, fortran=False,
+               id="prefixNW60")
+    big["lens"] = [130]
+    capped = dict(runs.gen_config(rng, 4901, tier), fe="single", N=2, W=3, K=2, limit=2, m=3, eps=0, scale=30.0, lam=0.11,
+                  lam_form="float", beta=5.0, beta_form="float", n_regimes=2, P=1, mp=False, readonly=False, fortran=False)
+    capped["lens"] = [150]
+    capped["id"] = "capped/P1/mp0/dNone"
+    histories.append([capped])
+    histories.append([big, dict(capped, id="capped/P1/mp0/dafterNW60")])
     res = common.pmap(history, histories)
     return {"bases": [b["id"] for b in bases], "histories": res}
 
